@@ -242,8 +242,26 @@ def region(els, w, join, cap, ml, off, pat, tol, nq, seed, stratum):
             if engine_error(d):
                 return 'engine error (dash) ' + d[:200]
             src = parse_els(d[3:] if d.startswith('ok ') else d)
-        return judge_region(src, out, w, join, cap, ml, tol, nq, seed)
-    return Case(lines, 'I', judge, stratum, 'oracle')
+        v = judge_region(src, out, w, join, cap, ml, tol, nq, seed)
+        if v:
+            return v
+        if polyline_src:
+            f = o['F'][0]
+            if f == 'NOT-MODELLED':
+                return 'CORR the model does not cover this polyline source'
+            if engine_error(f):
+                return 'CORR engine error (model) ' + f[:100]
+            fe = parse_els(f[3:] if f.startswith('ok ') else f)
+            if [e[0] for e in fe] != [e[0] for e in out]:
+                return f'CORR structure impl={"".join(e[0] for e in out)} model={"".join(e[0] for e in fe)}'
+            sc = max([1.0, w] + [abs(c) for el in els for p in el[1:] for c in p])
+            for a, b in zip(out, fe):
+                for pa, pb in zip(a[1:], b[1:]):
+                    if abs(pa[0] - pb[0]) > 1e-9 * sc or abs(pa[1] - pb[1]) > 1e-9 * sc:
+                        return f'CORR impl != model@Float: {a} vs {b}'
+        return None
+    polyline_src = all(el[0] in 'MLZ' for el in els)
+    return Case(lines, 'IF' if polyline_src else 'I', judge, stratum, 'oracle')
 
 
 # ------------------------------------------------------------------ sources
@@ -318,7 +336,7 @@ def wild_cubics(rng):
 
 
 def generate(rng, tier):
-    n = 36 if tier == 'quick' else 700
+    n = 120 if tier == 'quick' else 1500
     nq = 36 if tier == 'quick' else 90
     for k in range(n):
         kind = ['poly', 'poly-sharp', 'smooth', 'wild'][k % 4]
